@@ -600,12 +600,33 @@ class Builder:
         api = {"files": []}
         self.api_files = api["files"]
         fnames = Names()
+        dep_file = None
+        if self.p.get("dep_only_file") and _p(self.draw, 0.6):
+            dpkg = self.d(st.sampled_from(["other.dep.v1", "acme.shared", "zeta.common.v2"] + ([root + "extra"] if self.p.get("prefix_dep_pkg") else [])))
+            self.cur_pkg = dpkg
+            dnames = self.ns(dpkg)
+            dep_file = {"name": dpkg.replace(".", "/") + "/" + self.d(st.sampled_from(["shared", "dep_types", "common"])) + ".proto",
+                        "package": dpkg, "messages": [], "enums": [], "services": []}
+            for _ in range(self.d(st.integers(1, 3))):
+                dep_file["messages"].append(self.skeleton(dpkg, dnames, 2, -1, base=self.d(st.sampled_from(["Shared", "DepThing", "Common", "Money2"]))))
+            e = self.enum(dnames, base="DepKind")
+            dep_file["enums"].append(e)
+            self.pool.append({"full": f".{dpkg}.{e['name']}", "kind": "enum", "file": -1, "msg": None, "pkg": dpkg})
+            for m in dep_file["messages"]:
+                self.fill(m, f"{dpkg}.{m['name']}", -1)
+            if self.d(st.booleans()):
+                dep_file["services"].append({"name": "DepService", "host": "dep.example.com", "methods": [
+                    {"name": "DepCall", "input": f".{dpkg}.{dep_file['messages'][0]['name']}", "output": f".{dpkg}.{dep_file['messages'][0]['name']}"}]})
         svc_names = None
         for fi in range(nfiles):
             # unversioned packages with sub-packages are a documented input error of the generator
             sub = fi < nfiles - 1 and self.versioned and self.coin("p_subpackage")   # the last file stays in the root package
             pkg = root + (".sub" + ("" if self.d(st.booleans()) else "two") if sub else "")
-            base = fnames.fresh(self.d(st.sampled_from(["lib", "types", "resources", "service", "common", "admin"])))
+            if self.p.get("odd_file_names") and _p(self.draw, 0.5):
+                base = fnames.fresh(self.d(st.sampled_from(["foo.bar", "my-file", "File2", "MyTypes", "class", "metadata", "import",
+                                                            "retry", "request", "timeout", "a1_b2", "x.y.z", "lib_v1", "types_"])))
+            else:
+                base = fnames.fresh(self.d(st.sampled_from(["lib", "types", "resources", "service", "common", "admin"])))
             file = {"name": pkg.replace(".", "/") + f"/{base}.proto", "package": pkg, "messages": [], "enums": [], "services": []}
             names = self.ns(pkg)
             self.cur_pkg = pkg
@@ -650,6 +671,9 @@ class Builder:
                             # a message's own name field does not reference itself
                             if r["msg_full"] != "." + full:
                                 fld["ref"] = {"type": r["type"]} if self.d(st.booleans()) else {"child_type": r["type"]}
+        if dep_file is not None:
+            api["file_to_generate"] = [f["name"] for f in api["files"]]
+            api["files"].insert(0, dep_file)
         if self.excluded:
             api["_excluded"] = sorted(set(self.excluded))
         return api
